@@ -16,7 +16,7 @@ func main() {
 		gombokrun.Register(r, gombokrun.ModeLaws, pkgs)
 		r.Post = gombokrun.Post(gombokrun.ModeLaws)
 		r.Rule = "programs: every struct declaration of the grammar (field kind x visibility x tag; one-field, two-field (thorough), field counts, generic constraint forms, grouped fields, special field names, user-written members) under every annotation set, packed " +
-			"up to 40 per scratch package; one scenario = one package: declarations -> gombok from the tree under test (GOPACKAGE/cwd as go generate sets them) -> go build (-gcflags=-e) together with a generated law test in the same package -> run. " +
+			"20 (quick) / 40 (thorough) per scratch package; one scenario = one package: declarations -> gombok from the tree under test (GOPACKAGE/cwd as go generate sets them) -> go build (-gcflags=-e) together with a generated law test in the same package -> run. " +
 			"A struct whose output does not compile is blamed by error position (bisection as fallback), confirmed in a package of its own, reported as compile/<shape>, removed, and the rest is law-checked. " +
 			"inputs: for every struct all combinations of two position-tagged values per field (up to 6 fields; beyond that all-first, all-second and every one-hot deviation from both). " +
 			"states = structs, transitions = law evaluations; every execution is non-trivial (it ran gombok and the compiler)."
@@ -45,6 +45,7 @@ func main() {
 			"values_per_field": 2,
 		}
 		r.Extra["uncovered"] = []string{
+			"private fields named asTuple / unapply / string: gombok lets the getter win and emits no AsTuple / Unapply / String, which leaves no law to test",
 			"two-field structs are enumerated under Value+Json+GenLabelled only (the superset of generated members), and only in the thorough tier",
 			"@fp.GetterPubField, @fp.WithPubField, @fp.Deref, @fp.String(useShow), @fp.RequiredArgsConstructor: not named by the statement",
 			"String(): only compiled, its text is not specified",
